@@ -47,6 +47,7 @@ type caseCfg struct {
 	Nodes         int
 	Sched         string
 	MultiKey      bool // same-slot multi-key commands in the stream (TRYAGAIN candidates)
+	SlowRefresh   bool // CLUSTER SLOTS replies are delayed by 0–2 ms (moves the client's refresh around)
 	BatchCount    uint
 	BatchBytes    uint64
 	BatchTicker   time.Duration
@@ -61,8 +62,8 @@ type caseCfg struct {
 }
 
 func (c caseCfg) String() string {
-	return fmt.Sprintf("txn=%v pipe=%v nodes=%d sched=%s multikey=%v batch=%d/%dB tick=%v ka=%v cp=%v n=%d tags=%d ver=%s plan=%d pause=%v buf=%d",
-		c.Txn, c.Pipeline, c.Nodes, c.Sched, c.MultiKey, c.BatchCount, c.BatchBytes, c.BatchTicker, c.KeepAlive, c.CpTicker,
+	return fmt.Sprintf("txn=%v pipe=%v nodes=%d sched=%s multikey=%v slowrefresh=%v batch=%d/%dB tick=%v ka=%v cp=%v n=%d tags=%d ver=%s plan=%d pause=%v buf=%d",
+		c.Txn, c.Pipeline, c.Nodes, c.Sched, c.MultiKey, c.SlowRefresh, c.BatchCount, c.BatchBytes, c.BatchTicker, c.KeepAlive, c.CpTicker,
 		c.NCmds, c.NTags, c.Version, c.PlanStyle, c.PauseUnit, c.BufSize)
 }
 
@@ -77,6 +78,7 @@ func genCase(i int, r *rand.Rand) caseCfg {
 	c.Pipeline = (i/(2*len(schedKinds)))%2 == 1
 	c.Nodes = 3 + r.Intn(3)
 	c.MultiKey = r.Intn(3) == 0
+	c.SlowRefresh = r.Intn(2) == 0
 	c.BatchCount = []uint{3, 7, 20, 100}[r.Intn(4)]
 	if c.Sched == "moved-mid" && c.BatchCount < 7 {
 		c.BatchCount = 20
@@ -84,8 +86,8 @@ func genCase(i int, r *rand.Rand) caseCfg {
 	c.BatchBytes = []uint64{256, 64 * 1024}[r.Intn(2)]
 	c.BatchTicker = time.Duration(2+r.Intn(6)) * time.Millisecond
 	c.KeepAlive = time.Duration(15+r.Intn(15)) * time.Millisecond
-	c.CpTicker = []time.Duration{2 * time.Millisecond, 10 * time.Millisecond, time.Second}[r.Intn(3)]
-	c.NCmds = 60 + r.Intn(90)
+	c.CpTicker = []time.Duration{2 * time.Millisecond, 10 * time.Millisecond, 40 * time.Millisecond}[r.Intn(3)]
+	c.NCmds = 150 + r.Intn(350)
 	c.NTags = 6 + r.Intn(8)
 	c.Version = []string{"7.2.0", "6.2.0"}[r.Intn(2)]
 	c.PlanStyle = r.Intn(4)
@@ -102,10 +104,12 @@ func main() {
 			"(schedule 'none': ≥2 nodes executed business writes); distinct = (mode, sender, schedule kind, outcome, redirect kinds served)")
 	run.Watchdog(25 * time.Minute)
 	run.MinDistinct(8)
-	n := run.N(60, 1500)
+	n := run.N(240, 3000)
 	run.Assume("cluster double (fakeredis): one cluster-wide lock serialises all nodes; MOVED/ASK/TRYAGAIN/CROSSSLOT decided as Redis 7 getNodeByQuery does, slots by ref.HashSlot; a command is executed only by the node Redis would execute it on")
 	run.Assume("transactional cluster mode is driven as cmd/syncer.go configures it: output = one shard of the cluster (FixTopology + SelNodes), stream keys inside that shard's slots, checkpoint key chosen inside the shard's slots (choseKeyInSlots re-implemented: prefix + '-' + 20 letters, first DFS hit)")
-	run.Assume("quiescence = every stream byte handed out and 4 keep-alive PINGs served afterwards (the sender pings only with an empty queue; at most 3 batches are in flight)")
+	run.Assume("workload: every hash tag owns typed keys (string/list/hash/set/zset) so no generated command can fail on a consistent replica; the double executes them for real (key existence drives ASK/TRYAGAIN); an error reply of the double to a generated command makes the case inconclusive")
+	run.Assume("a Send that returns by itself (any error, or nil) is followed by StartPoint+Send in the tool's input loop: it counts as a reported restart from the stored resume position")
+	run.Assume("quiescence = the sender stored the stream's end offset as resume position (it consumed every item and flushed its queue) and 4 keep-alive PING batches were served afterwards (at most 3 batches are in flight behind the dispatcher)")
 
 	harness.Parallel(n, 16, func(i int) {
 		key := fmt.Sprintf("case-%d", i)
@@ -349,10 +353,10 @@ func installSchedule(r *rand.Rand, cc caseCfg, cl *fakeredis.Cluster, victims []
 	frac := func(lo, hi float64) int64 { return base + int64((lo+(hi-lo)*r.Float64())*float64(W)) }
 	switch cc.Sched {
 	case "moved-mid":
-		at := frac(0.1, 0.6)
-		for i, v := range victims {
+		// every victim slot moves at its own moment (several refreshes of the client's table)
+		for _, v := range victims {
 			v := v
-			cl.At(at+int64(i*r.Intn(3)), func(t *fakeredis.Topo) { t.MigrateSlot(v.slot, other(t, v.slot)) })
+			cl.At(frac(0.05, 0.8), func(t *fakeredis.Topo) { t.MigrateSlot(v.slot, other(t, v.slot)) })
 		}
 	case "ask":
 		k1 := frac(0.05, 0.4)
@@ -409,14 +413,20 @@ func installSchedule(r *rand.Rand, cc caseCfg, cl *fakeredis.Cluster, victims []
 					}
 				})
 				if windowed {
-					at += int64(2 + r.Intn(W/10+1))
+					at += int64(2 + r.Intn(W/8+1))
 					cl.At(at, func(t *fakeredis.Topo) {
 						if to := t.MigratingTo(v.slot); to >= 0 {
 							t.SetSlotOwner(v.slot, to)
 						}
 					})
 				}
-				at += int64(3 + r.Intn(W/6+1))
+				// legs usually fall into different batches; now and then the slot bounces
+				// within a few requests
+				if r.Intn(4) == 0 {
+					at += int64(2 + r.Intn(6))
+				} else {
+					at += int64(W/8 + r.Intn(W/4+1))
+				}
 			}
 		}
 	case "node-added":
@@ -446,7 +456,7 @@ type outcome struct {
 func errClass(err error) string {
 	switch {
 	case err == nil:
-		return "none"
+		return "nil"
 	case errors.Is(err, syncer.ErrRedisTypologyChanged):
 		return "typology-changed"
 	case errors.Is(err, syncer.ErrRestart):
@@ -467,6 +477,25 @@ func oneCase(run *harness.Run, key string, idx int, r *rand.Rand, cc caseCfg) {
 	cl := fakeredis.NewCluster(cc.Nodes, fakeredis.Options{Version: cc.Version})
 	defer cl.Close()
 	hist := fmt.Sprintf("c%d", idx)
+	var slowNode atomic.Int64 // the congested node: the owner of the hottest victim slot
+	slowNode.Store(-1)
+	if cc.SlowRefresh {
+		// back-pressure only (never a verdict): topology replies take 0–2 ms, so the client's
+		// asynchronous slot-table refresh lands at varying points of the following batches
+		// ...and one node answers every request 150 µs late, so that a pipelined sender really has
+		// several batches in flight on that node's connection
+		var n atomic.Int64
+		for i := 0; i < cc.Nodes; i++ {
+			i := int64(i)
+			cl.Node(int(i)).ReplyDelay = func(cmd string) {
+				if cmd == "CLUSTER" {
+					time.Sleep(time.Duration(n.Add(1)*7919%21) * 100 * time.Microsecond)
+				} else if i == slowNode.Load() && cc.Pipeline {
+					time.Sleep(150 * time.Microsecond)
+				}
+			}
+		}
+	}
 
 	// target configuration the way cmd/syncer.go derives it
 	full := config.RedisConfig{Addresses: cl.Addrs(), Type: config.RedisTypeCluster, Otype: config.RedisTypeCluster, Version: cc.Version,
@@ -547,13 +576,18 @@ func oneCase(run *harness.Run, key string, idx int, r *rand.Rand, cc caseCfg) {
 	used := append([]*tagT{}, tags...)
 	sort.SliceStable(used, func(a, b int) bool { return used[a].uses > used[b].uses })
 	var victims []victim
-	for i := 0; i < len(used) && i < 1+r.Intn(3); i++ {
+	for i, nv := 0, 1+r.Intn(4); i < len(used) && i < nv; i++ {
 		if used[i].uses > 0 {
 			victims = append(victims, victim{used[i].slot, used[i].name})
 		}
 	}
 
-	// monitors on the double
+	if len(victims) > 0 {
+		slowNode.Store(int64(cl.Owner(victims[0].slot)))
+	}
+
+	// monitors on the double: keep-alive pings, the stored resume offset reaching the end of the
+	// stream, and (schedule moved-between) the applications of the first part of the stream
 	var pings atomic.Int64
 	pingCh := make(chan struct{}, 1)
 	cl.SetOnRequest(func(q *fakeredis.CReq) {
@@ -565,6 +599,26 @@ func oneCase(run *harness.Run, key string, idx int, r *rand.Rand, cc caseCfg) {
 			}
 		}
 	})
+	endOff := base + int64(len(st.Bytes))
+	cpField := (&checkpoint.CheckpointInfo{RunId: runID}).OffsetKey()
+	cpAtEnd := make(chan struct{})
+	var cpOnce sync.Once
+	var part1Hook func(id string)
+	onApplied := func(a *fakeredis.CApp) {
+		if a.Cmd == "HSET" && len(a.Args) >= 3 && string(a.Args[0]) == cpName {
+			for i := 1; i+1 < len(a.Args); i += 2 {
+				if string(a.Args[i]) == cpField {
+					if v, err := strconv.ParseInt(string(a.Args[i+1]), 10, 64); err == nil && v == endOff {
+						cpOnce.Do(func() { close(cpAtEnd) })
+					}
+				}
+			}
+			return
+		}
+		if part1Hook != nil {
+			part1Hook(gen.FindID(a.Args))
+		}
+	}
 
 	plan := drive.Plan(r, st.Bytes, cc.PauseUnit, cc.PlanStyle)
 	appBase := len(cl.Applied())
@@ -592,8 +646,7 @@ func oneCase(run *harness.Run, key string, idx int, r *rand.Rand, cc caseCfg) {
 		if len(pending) == 0 {
 			close(part1)
 		}
-		cl.SetOnApplied(func(a *fakeredis.CApp) {
-			id := gen.FindID(a.Args)
+		part1Hook = func(id string) {
 			mu.Lock()
 			if pending[id] {
 				delete(pending, id)
@@ -602,7 +655,7 @@ func oneCase(run *harness.Run, key string, idx int, r *rand.Rand, cc caseCfg) {
 				}
 			}
 			mu.Unlock()
-		})
+		}
 		go func() {
 			<-part1
 			cl.Update(func(t *fakeredis.Topo) {
@@ -619,19 +672,19 @@ func oneCase(run *harness.Run, key string, idx int, r *rand.Rand, cc caseCfg) {
 		installSchedule(r, cc, cl, victims, reqBase, len(w.writes))
 	}
 
+	cl.SetOnApplied(onApplied)
 	ar := ss.SendAof(ctx, sp.Offset, plan, false, cc.BufSize)
 
-	// quiescence: all bytes handed out, then 4 keep-alive pings
+	// quiescence (logical): the sender stored the end offset of the stream as resume position —
+	// it has consumed every item and flushed its queue — and 4 keep-alive batches were served
+	// after that (at most 3 batches are in flight behind the dispatcher)
 	quiet := make(chan struct{})
 	stopQ := make(chan struct{})
 	go func() {
 		select {
-		case <-ar.F.AllOut():
+		case <-cpAtEnd:
 		case <-stopQ:
 			return
-		}
-		if ar.F.Handed() < int64(len(st.Bytes)) {
-			return // aborted
 		}
 		from := pings.Load()
 		for pings.Load() < from+4 {
@@ -656,17 +709,15 @@ func oneCase(run *harness.Run, key string, idx int, r *rand.Rand, cc caseCfg) {
 	case e := <-ar.Done:
 		oc.kind, oc.err = "error", e
 		ar.F.Abort()
-	case <-time.After(120 * time.Second):
+	case <-time.After(45 * time.Second):
 		ar.Stop(10 * time.Second)
 		close(stopQ)
-		run.Inconclusive("%s: watchdog: neither quiescent nor ended (handed %d of %d bytes) [%s]", key, ar.F.Handed(), len(st.Bytes), cc)
+		run.Inconclusive("%s: watchdog: neither quiescent nor ended (handed %d of %d bytes, %d pings) [%s]", key, ar.F.Handed(), len(st.Bytes), pings.Load(), cc)
 		return
 	}
 	close(stopQ)
-	if oc.kind == "error" && oc.err == nil {
-		run.Inconclusive("%s: Send returned nil by itself", key)
-		return
-	}
+	// a Send that returns by itself — with whatever error, or none — makes the input loop call
+	// StartPoint and Send again: it resumes from the stored position
 	if !cl.WaitIdle(300*time.Millisecond, 20*time.Second) {
 		run.Inconclusive("%s: cluster double did not become idle after Send returned", key)
 		return
@@ -676,11 +727,53 @@ func oneCase(run *harness.Run, key string, idx int, r *rand.Rand, cc caseCfg) {
 
 	// ---- observe
 	apps := cl.Applied()[appBase:]
+	var reqs []fakeredis.CReq
+	for _, q := range cl.Requests() {
+		if q.GReq > reqBase {
+			reqs = append(reqs, q)
+		}
+	}
 	type seen struct {
 		p    int
 		gseq int64
+		greq int64
 		node int
 	}
+	// what the double answered to the requests carrying an id (in request order)
+	idReplies := map[string][]fakeredis.CReq{}
+	for _, q := range reqs {
+		if id := gen.FindID(q.Args); id != "" {
+			idReplies[id] = append(idReplies[id], q)
+		}
+	}
+	// lastReply: the answer to the last request carrying id before cluster request `before`
+	lastReply := func(id string, before int64) (string, *fakeredis.CReq) {
+		cls := "not-sent"
+		var rq *fakeredis.CReq
+		for i := range idReplies[id] {
+			q := &idReplies[id][i]
+			if q.GReq >= before {
+				break
+			}
+			cls, rq = "ok", q
+			if e, isErr := q.Reply.(fakeredis.Err); isErr {
+				cls = string(e)
+				if i := strings.IndexByte(cls, ' '); i > 0 {
+					cls = cls[:i]
+				}
+			}
+		}
+		return cls, rq
+	}
+	replyClass := func(id string, before int64) string {
+		c, _ := lastReply(id, before)
+		return c
+	}
+	reqByGReq := map[int64]*fakeredis.CReq{}
+	for i := range reqs {
+		reqByGReq[reqs[i].GReq] = &reqs[i]
+	}
+	const never = int64(1) << 62
 	posOf := map[string][]seen{}
 	idCount := map[string]int{}
 	nodesUsed := map[int]bool{}
@@ -703,7 +796,7 @@ func oneCase(run *harness.Run, key string, idx int, r *rand.Rand, cc caseCfg) {
 		idCount[id]++
 		nodesUsed[a.Node] = true
 		for _, k := range x.keys {
-			posOf[k] = append(posOf[k], seen{w.pos[k][id], a.GSeq, a.Node})
+			posOf[k] = append(posOf[k], seen{w.pos[k][id], a.GSeq, a.GReq, a.Node})
 		}
 	}
 	redir := cl.Redirects()
@@ -729,38 +822,96 @@ func oneCase(run *harness.Run, key string, idx int, r *rand.Rand, cc caseCfg) {
 	}
 
 	run.Eval(1)
-	ctxSig := fmt.Sprintf("%s|sched=%s|redir=%s", modeSig(cc), cc.Sched, redirSig)
-	witness := func(k string, extra map[string]any) map[string]any {
+	allKeys := make([]string, 0, len(w.seq))
+	for k := range w.seq {
+		allKeys = append(allKeys, k)
+	}
+	sort.Strings(allKeys)
+	witness := func(k string, focus int) map[string]any {
 		wt := map[string]any{"config": cc.String(), "outcome": oc.kind, "send_error": fmt.Sprint(oc.err), "error_class": errClass(oc.err),
 			"redirects_served": redir, "stored_resume_offset": cp, "stream_base_offset": base, "checkpoint_key": cpName}
 		var ev []string
-		for _, e := range cl.Events() {
-			ev = append(ev, fmt.Sprintf("after req %d (replay req %d), effect %d: %s", e.AfterGReq, e.AfterGReq-reqBase, e.AfterGSeq, e.What))
+		for i, e := range cl.Events() {
+			if i >= 40 {
+				ev = append(ev, fmt.Sprintf("... %d more", len(cl.Events())-i))
+				break
+			}
+			if len(e.What) > 200 {
+				e.What = e.What[:200] + "..."
+			}
+			ev = append(ev, fmt.Sprintf("after cluster req %d, effect %d: %s", e.AfterGReq, e.AfterGSeq, e.What))
 		}
 		wt["topology_events"] = ev
 		if k != "" {
 			wt["key"] = k
 			wt["key_slot"] = ref.HashSlot([]byte(k))
+			// the neighbourhood of the offending position (whole sequences when short)
+			near := func(p int) bool { return len(w.seq[k]) <= 16 || (p >= focus-5 && p <= focus+5) }
 			var exp, got []string
 			for i, id := range w.seq[k] {
-				c := st.Cmds[w.byID[id].cmd]
-				exp = append(exp, fmt.Sprintf("#%d %s [%d,%d) %s", i, id, base+c.Start, base+c.End, c.Name))
+				if near(i) {
+					c := st.Cmds[w.byID[id].cmd]
+					exp = append(exp, fmt.Sprintf("#%d %s [%d,%d) %s", i, id, base+c.Start, base+c.End, c.Name))
+				}
 			}
 			for _, s := range posOf[k] {
-				got = append(got, fmt.Sprintf("#%d@node%d(effect %d)", s.p, s.node, s.gseq))
+				if near(s.p) {
+					got = append(got, fmt.Sprintf("#%d@node%d(effect %d, cluster req %d)", s.p, s.node, s.gseq, s.greq))
+				}
 			}
 			wt["key_source_sequence"] = exp
 			wt["key_applied_in_global_order"] = got
-		}
-		for a, b := range extra {
-			wt[a] = b
+			wt["key_sequence_length"] = len(w.seq[k])
+			// wire-level trace of what concerns the key around the offending position: its
+			// commands on every node (with the reply) and the client's topology refreshes /
+			// ASKING requests in between
+			lo, hi := never, int64(-1)
+			for _, q := range reqs {
+				if p, mine := w.pos[k][gen.FindID(q.Args)]; mine && near(p) {
+					if q.GReq < lo {
+						lo = q.GReq
+					}
+					if q.GReq > hi {
+						hi = q.GReq
+					}
+				}
+			}
+			var tr []string
+			for _, q := range reqs {
+				if q.GReq < lo-8 || q.GReq > hi {
+					continue
+				}
+				id := gen.FindID(q.Args)
+				p, mine := w.pos[k][id]
+				if !(mine && near(p)) && q.Cmd != "CLUSTER" && q.Cmd != "ASKING" {
+					continue
+				}
+				rep := fmt.Sprint(q.Reply)
+				if q.Cmd == "CLUSTER" {
+					rep = "..."
+				}
+				if len(rep) > 60 {
+					rep = rep[:60] + "..."
+				}
+				arg0 := ""
+				if len(q.Args) > 0 {
+					arg0 = string(q.Args[0])
+				}
+				tr = append(tr, fmt.Sprintf("req %d node%d conn%d %s %s %s -> %s", q.GReq, q.Node, q.Conn, q.Cmd, arg0, id, rep))
+				if len(tr) >= 120 {
+					tr = append(tr, "...")
+					break
+				}
+			}
+			wt["key_request_trace"] = tr
 		}
 		return wt
 	}
 
 	// clause 1: per-key order
 	keysChecked := 0
-	for k, exp := range w.seq {
+	for _, k := range allKeys {
+		exp := w.seq[k]
 		keysChecked++
 		got := posOf[k]
 		prev := -1
@@ -773,54 +924,79 @@ func oneCase(run *harness.Run, key string, idx int, r *rand.Rand, cc caseCfg) {
 						break
 					}
 				}
-				run.Violation("order|"+cls+"|"+ctxSig, key,
-					fmt.Sprintf("key %q: command #%d applied right after #%d (of %d) — %s", k, s.p, prev, len(exp), cls),
-					witness(k, nil))
+				// what had happened to the command that was jumped over when this one took effect,
+				// and where the overtaking command ran: pipelined behind it on the same connection
+				// (the node went on executing after redirecting/refusing a command) or elsewhere
+				// (routed around it)
+				jumped, jq := lastReply(exp[prev+1], s.greq)
+				via := "elsewhere"
+				if oq := reqByGReq[s.greq]; jq != nil && oq != nil && jq.Node == oq.Node && jq.Conn == oq.Conn {
+					via = "same-pipeline"
+				}
+				run.Violation(fmt.Sprintf("order|%s|%s|jumped-over=%s|successor=%s", cls, modeSig(cc), jumped, via), key,
+					fmt.Sprintf("key %q: command #%d took effect right after #%d (of %d) — %s; #%d had been answered %q by then, the overtaking command ran %s [schedule %s]",
+						k, s.p, prev, len(exp), cls, prev+1, jumped, via, cc.Sched),
+					witness(k, prev+1))
 				break
 			}
 			prev = s.p
 		}
 	}
 	// clause 2/3: no silent loss
-	for k, exp := range w.seq {
+	lossReported := false
+	for _, k := range allKeys {
+		exp := w.seq[k]
 		got := posOf[k]
 		last := -1
 		if len(got) > 0 {
 			last = got[len(got)-1].p
 		}
-		if last == len(exp)-1 {
+		if oc.kind == "completed" {
+			// nothing was reported: every command of the key must have been applied (an
+			// application order that does not end with the last one is clause 1's business)
+			applied := map[int]bool{}
+			for _, s := range got {
+				applied[s.p] = true
+			}
+			for j := range exp {
+				if !applied[j] && !lossReported {
+					lossReported = true
+					run.Violation(fmt.Sprintf("silent-loss|%s|lost-got=%s", modeSig(cc), replyClass(exp[j], never)), key,
+						fmt.Sprintf("key %q: Send reported nothing and the tool went idle after storing the stream's end offset, but command #%d of %d (%s) was never applied [schedule %s]",
+							k, j, len(exp), exp[j], cc.Sched),
+						witness(k, j))
+				}
+			}
+			continue
+		}
+		if last == len(exp)-1 || lossReported {
 			continue
 		}
 		next := st.Cmds[w.byID[exp[last+1]].cmd]
-		if oc.kind == "completed" {
-			run.Violation("silent-loss|"+ctxSig, key,
-				fmt.Sprintf("key %q: Send reported nothing, the tool went idle, but the last applied command is #%d of %d (%s never followed)", k, last, len(exp), exp[last+1]),
-				witness(k, nil))
-			break
-		}
 		if cp > base+next.Start {
-			run.Violation("resume-past-unapplied|"+modeSig(cc)+"|err="+errClass(oc.err)+"|sched="+cc.Sched+"|redir="+redirSig, key,
-				fmt.Sprintf("key %q: Send reported %q; stored resume offset %d lies beyond the start %d of %s (#%d, the command after the last applied #%d): a restart skips it",
-					k, errClass(oc.err), cp, base+next.Start, exp[last+1], last+1, last),
-				witness(k, nil))
-			break
+			lossReported = true
+			run.Violation(fmt.Sprintf("resume-past-unapplied|%s|err=%s|unapplied-got=%s", modeSig(cc), errClass(oc.err), replyClass(exp[last+1], never)), key,
+				fmt.Sprintf("key %q: Send reported %q; the stored resume offset %d lies beyond the start %d of %s (#%d, the command after the last applied #%d): a restart skips it [schedule %s]",
+					k, errClass(oc.err), cp, base+next.Start, exp[last+1], last+1, last, cc.Sched),
+				witness(k, last+1))
 		}
 	}
 	// clause 4: transactional mode applies nothing twice
 	dups := 0
-	for id, n := range idCount {
-		if n > 1 {
+	dupReported := false
+	for _, x := range w.writes {
+		if n := idCount[x.id]; n > 1 {
 			dups++
-			if cc.Txn {
-				run.Violation("txn-duplicate|"+ctxSig, key, fmt.Sprintf("transactional mode: %s applied %d times within one run", id, n),
-					witness(w.byID[id].keys[0], nil))
-				break
+			if cc.Txn && !dupReported {
+				dupReported = true
+				run.Violation("txn-duplicate|"+modeSig(cc), key, fmt.Sprintf("transactional mode: %s applied %d times within one run [schedule %s]", x.id, n, cc.Sched),
+					witness(x.keys[0], w.pos[x.keys[0]][x.id]))
 			}
 		}
 	}
 
 	// ---- coverage
-	fired := cl.Pending() == 0 && (cc.Sched == "none" || len(cl.Events()) > 0)
+	fired := cc.Sched == "none" || len(cl.Events()) > 0 // at least one scripted change happened during the replay
 	oSig := oc.kind
 	if oc.kind == "error" {
 		oSig = "error:" + errClass(oc.err)
@@ -835,7 +1011,7 @@ func oneCase(run *harness.Run, key string, idx int, r *rand.Rand, cc caseCfg) {
 	}
 	run.Count("business_writes_in_streams", int64(len(w.writes)))
 	run.Count("business_applications_observed", int64(nBiz))
-	run.Count("ids_applied_more_than_once(retries)", int64(dups))
+	run.Count("ids_applied_more_than_once", int64(dups))
 	run.Count("per_key_sequences_checked", int64(keysChecked))
 	run.Count("topology_events_fired", int64(len(cl.Events())))
 	run.Count("cluster_requests_logged", cl.ReqCount()-reqBase)
